@@ -45,19 +45,29 @@ let gen_history (idx : int) (prof : eprofile) (oc : out_channel) =
       "H %d GW auth=%d user=- pass=- rdelay=%d rcount=%d predef=%s CL cid=%s user=%s pass=%s keepalive=%d ctimeout=5000 rdelay=%d rcount=%d clean=1 will=%s wmsg=%s wqos=%d wretain=0 predef=%s LINK c2g=%s g2c=%s"
       idx (if auth then 1 else 0) gdelay rcount predef (hex_of_bytes (bs "cl1"))
       (if auth then hex_of_bytes (bs "u1") else "-") (if auth then hex_of_bytes (bs "pw") else "x")
-      (pick [5; 10; 60]) cdelay rcount (if will then hex_of_bytes (bs "will/t") else "-") (hex_of_bytes (bs "bye")) (rnd 2) predef
+      60000 (* the keep-alive loop of the client (not in the client model) never ticks within a history *) cdelay rcount (if will then hex_of_bytes (bs "will/t") else "-") (hex_of_bytes (bs "bye")) (rnd 2) predef
       (Bytes.to_string c2g) (Bytes.to_string g2c) in
   output_string oc (hline ^ "\n");
   let cfg = E2e_io.parse_cfg (List.tl (List.tl (split_on ' ' hline))) in
   let y = ref (sys_init cfg) in
   let next_call = ref 1 in
+  (* an advance must not end exactly on a deadline, and no two deadlines may coincide on the way *)
+  let rec ambiguous (st : sys) (target : int) (fuel : int) : bool =
+    if fuel = 0 then true else
+    match List.sort compare (deadlines st) with
+    | [] -> false
+    | m :: rest ->
+      if m > target then false
+      else if m = target then true
+      else if (match rest with m2 :: _ -> m2 = m | [] -> false) then true
+      else
+        let now = int_of_n st.y_gw.gw_now in
+        let (st', _) = sys_step cfg st (SAdv (n_of_int (max 1 (m - now)))) in
+        ambiguous st' target (fuel - 1) in
   let emit (text : string) : bool =
     let ev = E2e_io.parse_event text in
-    (* an advance must not end exactly on a deadline, and no two deadlines may coincide on the way *)
     let ok_adv = (match ev with
-        | SAdv d ->
-          let target = int_of_n !y.y_gw.gw_now + int_of_n d in
-          not (List.mem target (deadlines !y))
+        | SAdv d -> not (ambiguous !y (int_of_n !y.y_gw.gw_now + int_of_n d) 400)
         | _ -> true) in
     if not ok_adv then false else begin
       let (y', _) = sys_step cfg !y ev in
@@ -87,7 +97,7 @@ let gen_history (idx : int) (prof : eprofile) (oc : out_channel) =
   call "CONNECT"; settle ();
   let len = 3 + rnd 14 in
   let k = ref 0 in
-  while !k < len && not !y.y_cl.cl_exited && not !y.y_gw.gw_ended do
+  while !k < len && not !y.y_cl.cl_exited && !y.y_cl.cl_cancelled = None && not !y.y_gw.gw_ended do
     incr k;
     (match !y.y_cl.cl_st with
      | Active ->
@@ -111,7 +121,7 @@ let gen_history (idx : int) (prof : eprofile) (oc : out_channel) =
      | Disconnected -> if rnd 3 = 0 then (call "CONNECT") else adv (50 + rnd 500));
     settle ()
   done;
-  if !y.y_cl.cl_st = Active && rnd 4 > 0 then (call "DISCONNECT"; settle ());
+  if !y.y_cl.cl_st = Active && not !y.y_cl.cl_exited && !y.y_cl.cl_cancelled = None && rnd 4 > 0 then (call "DISCONNECT"; settle ());
   adv (1200 + rnd 300);
   output_string oc "END\n"
 
